@@ -2,16 +2,20 @@
 (* C19  IP dictionaries report exact membership  (bfe_util/ipdict).               *)
 (*                                                                                *)
 (* Address domain: ONE ordered 128-bit space, as the code has it (every address is  *)
-(* compared in its 16-byte form, IPv4 a.b.c.d being ::ffff:a.b.c.d).  Three zones of  *)
-(* A+1 consecutive keys each, in 16-byte order:                                       *)
+(* compared in its 16-byte form, IPv4 a.b.c.d being ::ffff:a.b.c.d).  Four zones of   *)
+(* consecutive keys, in 16-byte order, anchored at the ends of the space and of the   *)
+(* IPv4-mapped block:                                                                 *)
 (*   L  keys 0 .. A          IPv6  ::n              below the IPv4-mapped block       *)
 (*   V  keys A+1 .. 2A+1     IPv4  0.0.0.n  (= ::ffff:0.0.0.n)   the mapped block     *)
 (*   H  keys 2A+2 .. 3A+2    IPv6  ::1:0:0:n        above the IPv4-mapped block       *)
+(*   T  keys 3A+3 .. 4A+2    IPv6  ffff:..:ffff - (A-1-n)   the top of the space; the  *)
+(*                           last key is the highest address (nothing lies above it)  *)
 (* Ranges and singles are loaded over n < A of each zone, so the address just above   *)
-(* each zone is probed too and both zero addresses (::, 0.0.0.0) can start a range.   *)
+(* L, V and H is probed too, both zero addresses (::, 0.0.0.0) can start a range and   *)
+(* the highest address can end one.                                                   *)
 (* InsertPair accepts a pair iff both ends are IPv4 or both are not: IPv4 ranges stay *)
-(* inside V, IPv6 ranges lie below V, above V, or STRADDLE it (lo in L, hi in H) and   *)
-(* then contain every IPv4 address.                                                   *)
+(* inside V, IPv6 ranges lie below V, above V, or STRADDLE it (lo in L, hi in H or T)  *)
+(* and then contain every IPv4 address.                                               *)
 (*                                                                                *)
 (* Layer P: Contains.  Layer M: IPItems.Sort (descending sort, mergeItems with    *)
 (* its zero-address markers, second sort, truncate) and IPTable.Search (binary    *)
@@ -22,11 +26,12 @@ CONSTANTS A,        \* loaded addresses per family: 0..A-1
           MaxR,     \* max number of ranges (a sequence: insertion order is an input)
           MaxS      \* max number of singles (a multiset: non-decreasing sequence)
 
-Keys     == 0..(3 * A + 2)                 \* probe domain (n = A of a zone is its "one above" address)
+Keys     == 0..(4 * A + 2)                 \* probe domain (n = A of L, V, H is the "one above" address)
 IsV4(k)  == k >= A + 1 /\ k <= 2 * A + 1
 Fam(k)   == IF IsV4(k) THEN 4 ELSE 6
 Num(k)   == k % (A + 1)
-Loadable == {k \in Keys : Num(k) < A}
+InTop(k) == k >= 3 * A + 3
+Loadable == {k \in Keys : InTop(k) \/ Num(k) < A}
 Zero6    == 0
 Zero4    == A + 1
 Ranges   == {r \in Loadable \X Loadable : Fam(r[1]) = Fam(r[2]) /\ r[1] <= r[2]}
